@@ -45,6 +45,7 @@ pub fn generate(rng: &mut Rng, tier: Tier, stats: &mut GenStats) -> Scenario {
         victims: vec![],
         layers: vec![Layer::Not(pf)],
         taps: g.rng.chance(1, 2),
+        erased: false,
     };
     Scenario {
         prop: "C03".into(),
